@@ -31,6 +31,36 @@ impl lexer::Config for Cfg {
     }
 }
 
+/// A configuration whose end-line character changes while the text is read: the k-th line loaded gets elcs[k]
+/// (lexer.rs asks for the end-line character exactly when it loads a line).
+struct SeqCfg {
+    table: HashMap<char, CatCode>,
+    elcs: Vec<Option<char>>,
+    k: std::cell::Cell<usize>,
+}
+impl lexer::Config for SeqCfg {
+    fn cat_code(&self, c: char) -> CatCode {
+        self.table.get(&c).copied().unwrap_or(CatCode::Other)
+    }
+    fn end_line_char(&self) -> Option<char> {
+        let i = self.k.get();
+        self.k.set(i + 1);
+        self.elcs.get(i).or(self.elcs.last()).copied().flatten()
+    }
+}
+
+fn lex_event_seq(text: &str, table: &[(char, u64)], elcs: &[i64]) -> Value {
+    let cfg = SeqCfg {
+        table: table.iter().map(|(c, n)| (*c, cat_from(*n))).collect(),
+        elcs: elcs.iter().map(|e| if *e >= 0 { char::from_u32(*e as u32) } else { None }).collect(),
+        k: std::cell::Cell::new(0),
+    };
+    let mut ev = lex_with(text, table, elcs.first().copied().unwrap_or(-1), &cfg);
+    ev["elcs"] = json!(elcs);
+    ev["via"] = json!("changing end-line character");
+    ev
+}
+
 fn cat_from(n: u64) -> CatCode {
     use CatCode::*;
     [Escape, BeginGroup, EndGroup, MathShift, AlignmentTab, EndOfLine, Parameter, Superscript, Subscript, Ignored, Space,
@@ -216,9 +246,25 @@ pub fn events(args: &Args) -> i32 {
         }
         let elc = *rng.pick(&[-1i64, 13, 13, 13, 97, 94, 32, 37, 92, 0, 127, 54, 98]);
         out.line(&lex_event(&text, &tb, elc));
+        // texts of several lines also with an end-line character that changes between lines (present, absent,
+        // another one): the positions of all later tokens must not move
+        let nlines = lines_of(&text).len();
+        if nlines >= 2 && i % 2 == 1 {
+            let vals = [-1i64, 13, 13, 97, 32, 37, -1, 94];
+            let mut cur = *rng.pick(&vals);
+            let elcs: Vec<i64> = (0..nlines)
+                .map(|_| {
+                    if rng.chance(1, 2) {
+                        cur = *rng.pick(&vals);
+                    }
+                    cur
+                })
+                .collect();
+            out.line(&lex_event_seq(&text, &tb, &elcs));
+        }
         // every third text also through a VM's own configuration, with any ASCII end-line character
-        // (the characters of the text that are not ASCII keep the plain code "other" in both)
-        if i % 3 == 0 && text.chars().all(|c| (c as u32) < 128) {
+        // (characters beyond ASCII get their code from the table too: codes.rs keeps those in a map of its own)
+        if i % 3 == 0 {
             let elc = match rng.below(6) {
                 0 => -1,
                 1 => 13,
